@@ -158,7 +158,18 @@ func runPeSign(sc M) {
 		o2, err := guard(func() error {
 			switch name {
 			case "sign":
-				_, err := p.Sign(testKey(ck[0]), testCert(ck[0], ck[1], ck[2]))
+				var sg crypto.Signer = testKey(ck[0])
+				if i%3 == 2 {
+					// overlapped: while this image waits in its signer, another image object (other bytes, other certificate) is parsed,
+					// signed and serialised from start to end; PeSign!Sign is about this object only
+					sg = duringSigner{testKey(ck[0]), func() {
+						if q, err := authenticode.Parse(bytes.NewReader(buildPE(signImageLayout("u0"), "c03:other").b)); err == nil {
+							q.Sign(testKey("k3"), testCert("k3", "i2", "s1"))
+							q.Bytes()
+						}
+					}}
+				}
+				_, err := p.Sign(sg, testCert(ck[0], ck[1], ck[2]))
 				return err
 			case "signfail":
 				_, err := p.Sign(faultySigner{testKey(ck[0]), &depLog{faultAt: 1, kind: "error"}}, testCert(ck[0], ck[1], ck[2]))
